@@ -298,7 +298,9 @@ Grid<T> transform_f_phi_to_map(const FPhi& fphi,
   } else {
     size = get_size_for_hkl(fphi, size, sample_rate);
   }
-  return transform_f_phi_grid_to_map(get_f_phi_on_grid<T>(fphi, size, true, order));
+  // a half-l grid does not record whether the size along l was odd: use the full grid then
+  bool half_l = size[2] % 2 == 0;
+  return transform_f_phi_grid_to_map(get_f_phi_on_grid<T>(fphi, size, half_l, order));
 }
 
 template<typename T, typename FPhi>
